@@ -129,8 +129,8 @@ def check_property(c, r1, rr, r2, dflt):
                 if layer == 'ovl' and p == 'WB' and c['sw'] & 2:
                     sig = {'defect': 'ovl-writeback-config'}
                 elif k == 2 and c['cap1'] & bit:
-                    # switched on by the first INIT and still on after DESTROY + an INIT that did not negotiate it;
-                    # under a Vfs the sticky switch is the backend's (the Vfs's own switches are recomputed)
+                    # switched on by the first INIT and still on after DESTROY + an INIT that did not negotiate it (the defect
+                    # repaired by fix: 3c323ec); under a Vfs the sticky switch is the backend's (the Vfs's own are recomputed)
                     sig = {'defect': 'sticky-reinit', 'layer': 'pt' if layer == 'vfs' else layer}
                 else:
                     sig = {'probe': p, 'round': k}
@@ -142,9 +142,9 @@ def check_property(c, r1, rr, r2, dflt):
                 bad('INIT #%d returned option bits 0x%x that the capability word 0x%x does not have' % (k, extra, cap), {'probe': 'opts', 'round': k})
             if layer == 'vfs' and c['out_opts'] is None:
                 for p, bit in (('O', ZMO), ('D', ZMOD)):
-                    # with the default out_opts the Vfs's own switch is on exactly when the bit is in the reply; in round 2 a
-                    # sticky backend switch may add ENOSYS answers (classified above), so only round 1 is an equivalence
-                    if k == 1 and on(r, p) != bool(bits & bit):
+                    # with the default out_opts the switch is on exactly when the bit is in the reply (both rounds: the
+                    # stored out_opts only shrink, and the backend follows the word it is given)
+                    if on(r, p) != bool(bits & bit):
                         bad('%s is %s but INIT #%d %s 0x%x' % (NAMES[p], 'on' if on(r, p) else 'off', k,
                                                                 'did not enable' if on(r, p) else 'enabled', bit), {'probe': p + '-iff', 'round': k})
         elif layer != 'vfs':
@@ -189,8 +189,8 @@ def run(rng, tier, bindir, findings, broken):
         if o is None: continue
         r1, rr, r2 = o
         fs = check_property(c, r1, rr, r2, dflt)
-        # a failing input that is not one of the modelled defects is reported as such; the model need not follow it
-        if any('defect' not in f['sig'] for f in fs): prop_failed.add(c['id'])
+        # a failing input is reported as such; the model need not follow it
+        if fs: prop_failed.add(c['id'])
         findings.extend(fs)
         e = coq_case(c, r1, rr, r2)
         if e is None:
@@ -203,7 +203,7 @@ def run(rng, tier, bindir, findings, broken):
     # (Model/InitToggles.vo is in the cone of Props/C12.vo, built by std_audit)
     # the model's default out_opts must be the source's
     exprs.append('(vfs_default_out =? %d)' % dflt); meta.append(None)
-    fails, errs = coq_check_cases('c12tog', HEADER, exprs, shard=(120 if tier == 'quick' else 250))
+    fails, errs = coq_check_cases('c12tog', HEADER, exprs, shard=(190 if tier == 'quick' else 250))
     if errs: broken.append({'kind': 'spec-eval', 'log': errs[0]})
     for i in fails:
         c = meta[i]
